@@ -249,6 +249,8 @@ struct Req {
     tcp: bool,
     opcode: u16,
     malformed: bool,
+    /// carries an OPT record with EDNS version 1: answered with BADVERS (extended RCODE 16)
+    badvers: bool,
 }
 
 fn prefix_bits(ip: &IpAddr) -> (bool, u128) {
@@ -325,6 +327,7 @@ fn gen_req(rng: &mut Rng, base: Option<&Req>, v4: u8, v6: u8) -> Req {
         tcp: rng.chance(1, 10),
         opcode: if rng.chance(1, 10) { *rng.pick(&[4u16, 5, 2]) } else { 0 },
         malformed: rng.chance(1, 12),
+        badvers: rng.chance(1, 8),
     }
 }
 
@@ -340,6 +343,9 @@ fn stream_of(reference: &RefCatalog, r: &Req, v4: u8, v6: u8) -> Option<(bool, u
     if r.malformed {
         return Some((is6, masked, 2, None)); // FORMERR: "other" category
     }
+    if r.badvers {
+        return Some((is6, masked, 2, None)); // BADVERS: an RCODE other than NOERROR/NXDOMAIN
+    }
     let exp = respond(reference, &r.name, r.qtype, C_IN);
     match exp.rcode {
         RC_NOERROR => {
@@ -353,6 +359,12 @@ fn stream_of(reference: &RefCatalog, r: &Req, v4: u8, v6: u8) -> Option<(bool, u
 
 fn send(server: &Server<QCatalog>, bufs: &mut Buffers, r: &Req, id: u16) -> Result<Option<Vec<u8>>, String> {
     let mut req = query(id, &r.name, r.qtype, r.opcode);
+    if r.badvers && !r.malformed {
+        // OPT with EDNS version 1; the low four bits of BADVERS are those of NOERROR
+        req.extend_from_slice(&[0, 0, 41, 0x04, 0xd0, 0, 1, 0, 0, 0, 0]);
+        let ar = u16::from_be_bytes([req[10], req[11]]) + 1;
+        req[10..12].copy_from_slice(&ar.to_be_bytes());
+    }
     if r.malformed {
         req.extend_from_slice(&[1, 2, 3]); // trailing octets: FORMERR
     }
@@ -360,7 +372,7 @@ fn send(server: &Server<QCatalog>, bufs: &mut Buffers, r: &Req, id: u16) -> Resu
 }
 
 pub fn run_c27(ctx: &Ctx, rep: &mut Report) {
-    let n = ctx.cases(40_000, 1_500_000);
+    let n = ctx.cases(160_000, 2_000_000);
     let (reference, cat) = rrl_zone();
     let cat = Arc::new(cat);
     let baseline = make_server(cat.clone(), &ServerCfg { payload: 1232, rrl: None, keys: vec![] });
